@@ -1,4 +1,39 @@
-(* C08/Props.v — property-level theorems only (statements + `exact`), each followed by Print Assumptions. *)
+(* C08/Props.v — property-level theorems only (statements + `exact`), each followed by Print Assumptions.
+   Tags [FULL]/[PARTIAL]/[REFUTED] are read by bin/check.
+   Vocabulary (C08/Model.v): raw files are byte lists; read_at r off len cap = (b[0..n), err) transcribes
+   ChecksumFile.ReadAt with len(b)=len, cap(b)=cap; write_at/append/size_of/scrub transcribe WriteAt/append/
+   Size/Scrub; run_ck / run_plain run an op sequence on the checksummed file / on an ordinary file. *)
 From Coq Require Import List NArith ZArith.
-From BLB Require Import Lib.CRC C08.CRCTab C08.Model.
+From BLB Require Import Lib.CRC C08.CRCTab C08.Model C08.Proofs.
 Import ListNotations.
+Open Scope N_scope.
+
+(* [FULL] the in-place fast path of ReadAt, taken when the read is block aligned and the caller's buffer has spare
+   capacity of at least blockLength, returns the same bytes b[0..n), hence the same count, and the same error as the
+   copying slow path, for every raw file whether sound or tampered, every offset, length and capacity; bytes of the
+   caller's buffer beyond n up to cap may be overwritten, they are not part of the result *)
+Theorem ckfile_inplace_equiv :
+  forall r off len cap, read_at r off len cap = read_at r off len 0.
+Proof. exact inplace_equiv_lemma. Qed.
+Print Assumptions ckfile_inplace_equiv.
+
+(* [FULL] truncation: whenever the raw length leaves a last fragment of 1 to blockChecksumLength bytes, Size reports
+   corruption, WriteAt and append report corruption and leave the raw file unchanged, every non-empty ReadAt that
+   starts in the fragment block reports corruption with zero bytes, and Scrub reports corruption, whatever the
+   other blocks hold *)
+Theorem ckfile_truncation :
+  forall r, bad_fragment r ->
+    size_of r = (0, E_CORRUPT) /\
+    (forall off d, write_at r off d = (r, 0, E_CORRUPT)) /\
+    (forall d, append r d = (r, 0, E_CORRUPT)) /\
+    (forall off len cap, 0 < len -> off / DL = (lenN r - HL) / BL -> read_at r off len cap = ([], E_CORRUPT)) /\
+    snd (scrub r) = E_CORRUPT.
+Proof. exact truncation_lemma. Qed.
+Print Assumptions ckfile_truncation.
+
+(* [REFUTED] the unrestricted refinement claim is false for the code as written, finding F19: after writing 3 bytes,
+   a zero-length WriteAt at offset 100 pads the checksummed file to size 100 while an ordinary file keeps size 3 *)
+Theorem ckfile_refines_plain_refuted :
+  exists ops, no_tamper ops /\ ~ refines_plain ops.
+Proof. exact refines_plain_refuted_lemma. Qed.
+Print Assumptions ckfile_refines_plain_refuted.
